@@ -335,6 +335,21 @@ TEXTUAL = [
     ("C20", "mse-absolute-error", "tensorly/metrics/regression.py", "    return T.mean((y_true - y_pred) ** 2, axis=axis)", "    return T.mean(T.abs(y_true - y_pred), axis=axis)"),
     ("C20", "reflective-correlation-without-root", "tensorly/metrics/regression.py", "    return T.sum(y_true * y_pred, axis=axis) / T.sqrt(\n        T.sum(y_true**2, axis=axis) * T.sum(y_pred**2, axis=axis)\n    )", "    return T.sum(y_true * y_pred, axis=axis) / (\n        T.sum(y_true**2, axis=axis) * T.sum(y_pred**2, axis=axis)\n    )"),
     ("C20", "leverage-scores-not-squared", "tensorly/metrics/leverage_scores.py", "tl.sum(U[:, :num_rank] ** 2, axis=1)", "tl.sum(U[:, :num_rank] * S[0], axis=1)"),
+    ("C05", "symeig-singular-values-not-rooted", "tensorly/tenalg/svd.py", "        S, V = tl.eigh(tl.dot(tl.transpose(matrix), matrix))\n        S = tl.sqrt(tl.clip(S, tl.eps(S.dtype)))", "        S, V = tl.eigh(tl.dot(tl.transpose(matrix), matrix))\n        S = tl.clip(S, tl.eps(S.dtype))"),
+    ("C05", "symeig-left-vectors-not-normalised", "tensorly/tenalg/svd.py", "        U = tl.dot(matrix, V) / tl.reshape(S, (1, -1))", "        U = tl.dot(matrix, V)"),
+    ("C05", "symeig-right-vectors-scaled-twice", "tensorly/tenalg/svd.py", "        V = tl.dot(tl.transpose(matrix), U / tl.reshape(S, (1, -1)))", "        V = tl.dot(tl.transpose(matrix), U / tl.reshape(S, (1, -1))) / tl.reshape(S, (1, -1))"),
+    ("C05", "randomized-range-not-orthonormalised", "tensorly/tenalg/svd.py", "    Q, _ = tl.qr(tl.dot(A, Q))\n\n    # Perform power iterations", "    Q = tl.dot(A, Q)\n\n    # Perform power iterations"),
+    ("C05", "randomized-left-vectors-times-spectrum", "tensorly/tenalg/svd.py", "        U = tl.dot(Q, U)\n", "        U = tl.dot(Q, U * S)\n"),
+    ("C05", "flip-sign-only-left-vectors", "tensorly/tenalg/svd.py", "        V = V * signs[: tl.shape(V)[0]][:, None]\n", ""),
+    ("C05", "flip-sign-v-based-only-right-vectors", "tensorly/tenalg/svd.py", "        U = U * signs[: tl.shape(U)[1]]\n", ""),
+    ("C05", "dispatch-symeig-runs-truncated", "tensorly/tenalg/svd.py", "    elif method == \"symeig_svd\":\n        svd_fun = symeig_svd", "    elif method == \"symeig_svd\":\n        svd_fun = truncated_svd"),
+    ("C09", "tt-svd-carries-v-without-spectrum", "tensorly/decomposition/_tt.py", "        unfolding = tl.reshape(S, (-1, 1)) * V\n\n    # Getting the last factor", "        unfolding = V\n\n    # Getting the last factor"),
+    ("C09", "tt-svd-core-scaled-by-spectrum", "tensorly/decomposition/_tt.py", "        factors[k] = tl.reshape(U, (rank[k], tensor_size[k], rank[k + 1]))", "        factors[k] = tl.reshape(U * S, (rank[k], tensor_size[k], rank[k + 1]))"),
+    ("C09", "tt-svd-rank-not-clipped-by-unfolding", "tensorly/decomposition/_tt.py", "        current_rank = min(n_row, n_column, rank[k + 1])", "        current_rank = min(n_row, rank[k + 1])"),
+    ("C09", "tt-svd-requests-unclipped-rank", "tensorly/decomposition/_tt.py", "        U, S, V = svd_interface(unfolding, n_eigenvecs=current_rank, method=svd)", "        U, S, V = svd_interface(unfolding, n_eigenvecs=rank[k + 1], method=svd)"),
+    ("C09", "tr-svd-first-core-scaled", "tensorly/decomposition/_tr_svd.py", "    factor = tl.reshape(U, (tensor_size[0], rank[0], rank[1]))", "    factor = tl.reshape(U * S, (tensor_size[0], rank[0], rank[1]))"),
+    ("C09", "tr-svd-first-rank-unguarded", "tensorly/decomposition/_tr_svd.py", "    if rank[0] * rank[1] > min(n_row, n_column):", "    if False:"),
+    ("C09", "hooi-core-from-untransposed-factors", "tensorly/decomposition/_tucker.py", "        core = multi_mode_dot(tensor, factors, modes=modes, transpose=True)\n\n        # The factors are orthonormal", "        core = multi_mode_dot(tensor * tl.norm(tensor, 2), factors, modes=modes, transpose=True)\n\n        # The factors are orthonormal"),
     ("C03", "cp-ctor-skips-validation", "tensorly/cp_tensor.py", "        shape, rank = _validate_cp_tensor(cp_tensor)\n        weights, factors = cp_tensor\n", "        weights, factors = cp_tensor\n        shape, rank = tuple(f.shape[0] for f in factors), factors[0].shape[1]\n"),
     ("C03", "tt-vec-of-other-family", "tensorly/tt_tensor.py", "    return tl.tensor_to_vec(tt_to_tensor(factors))", "    return tl.tensor_to_vec(tt_to_tensor(factors[::-1]))"),
     ("C03", "tucker-unfolded-wrong-mode", "tensorly/tucker_tensor.py", "        mode,\n    )", "        mode + 1,\n    )"),
@@ -441,6 +456,10 @@ TEXTUAL_TWINS = [
     ("C12", "normalized-sparsity-guarded-norm", "tensorly/tenalg/proximal.py", "    return tensor_hard / tl.norm(tensor_hard)", "    return tensor_hard / (tl.norm(tensor_hard) + tl.eps(tensor_hard.dtype))"),
     ("C20", "congruence-normalise-via-local", "tensorly/metrics/factors.py", "        mat1 = mat1 / T.norm(mat1, axis=0)\n", "        norms1 = T.norm(mat1, axis=0)\n        mat1 = mat1 / norms1\n"),
     ("C20", "r2-via-ratio", "tensorly/metrics/regression.py", "    return 1 - T.norm(X_predicted - X_original) ** 2.0 / T.norm(X_original) ** 2.0", "    return 1 - (T.norm(X_predicted - X_original) / T.norm(X_original)) ** 2.0"),
+    ("C05", "symeig-normalise-before-product", "tensorly/tenalg/svd.py", "        U = tl.dot(matrix, V) / tl.reshape(S, (1, -1))", "        U = tl.dot(matrix, V / tl.reshape(S, (1, -1)))"),
+    ("C05", "flip-sign-broadcast-spelled-differently", "tensorly/tenalg/svd.py", "        U = U * signs\n        if tl.shape(V)[0] > tl.shape(U)[1]:", "        U = signs * U\n        if tl.shape(V)[0] > tl.shape(U)[1]:"),
+    ("C09", "tt-svd-carry-via-dot-diag", "tensorly/decomposition/_tt.py", "        unfolding = tl.reshape(S, (-1, 1)) * V\n\n    # Getting the last factor", "        unfolding = V * tl.reshape(S, (-1, 1))\n\n    # Getting the last factor"),
+    ("C09", "tt-svd-min-argument-order", "tensorly/decomposition/_tt.py", "        current_rank = min(n_row, n_column, rank[k + 1])", "        current_rank = min(rank[k + 1], n_column, n_row)"),
     ("C01", "partial-fold-del-by-position", "tensorly/base.py", "    mode_dim = transposed_shape.pop(skip_begin + mode)", "    mode_dim = transposed_shape.pop(skip_begin + mode)\n    _n_axes = len(transposed_shape)"),
 ]
 
